@@ -1,7 +1,114 @@
 import Driver.Common
+import Log4rsModel.Routing.Filters
+/-
+C03 driver.
+case   : nodeLevel TAB recordLevel TAB attached TAB appenders
+           attached  = `,`-list of appender numbers (the root logger's attachment list, repeats allowed)
+           appenders = `,`-list of  chain;result   chain = `|`-list of A N R T<k>, result = ok | fail
+observation (one field): the calls in order, `,`-separated: f<app>.<idx>  a<app>  h<app>   (`~` = none)
+-/
 namespace Driver.C03
-open Driver
+open Log4rs.Proto Log4rs.Routing Log4rs Driver
 
-def handle : Handler := fun _ _ => badCase "unimplemented"
+def decFilter (s : String) : Option Filter :=
+  match s with
+  | "A" => some (.fixed .accept)
+  | "N" => some (.fixed .neutral)
+  | "R" => some (.fixed .reject)
+  | _ => if s.startsWith "T" then ((s.drop 1).toString.toNat?).map Filter.threshold else none
+
+def decAppender (s : String) : Option AppenderM :=
+  match splitOnChar ';' s with
+  | [ch, res] =>
+    match mapM? decFilter (decList '|' ch), (if res = "ok" then some false else if res = "fail" then some true else none) with
+    | some ch, some f => some { chain := ch, fails := f }
+    | _, _ => none
+  | _ => none
+
+def renderEvent : Event → String
+  | .filter a i => "f" ++ toString a ++ "." ++ toString i
+  | .append a => "a" ++ toString a
+  | .handler a => "h" ++ toString a
+
+def renderTrace (tr : List Event) : String := encList "," (tr.map renderEvent)
+
+def renderOutcome : Outcome Unit (List Event) → String
+  | .ok tr => renderTrace tr
+  | _ => "PANIC"
+
+def tagsOf (table : List AppenderM) (nodeLevel : Nat) (attached : List Nat) (lvl : Nat) : List String :=
+  let apps := attached.filterMap (table[·]?)
+  let dec := apps.map fun a => firstDecisive lvl a.chain
+  let t := (if !admits nodeLevel lvl then ["not-admitted"] else [])
+    ++ (if dec.any (· = some .accept) then ["accept"] else [])
+    ++ (if dec.any (· = some .reject) then ["reject"] else [])
+    ++ (if apps.any (fun a => !a.chain.isEmpty && firstDecisive lvl a.chain = none) then ["all-neutral"] else [])
+    ++ (if apps.any (fun a => specConsulted lvl a.chain < a.chain.length) then ["short-circuit"] else [])
+    ++ (if apps.any (fun a => a.chain.any (fun f => match f with | .threshold _ => true | _ => false)) then ["threshold"] else [])
+    ++ (if attached.any (specErrs table lvl) then ["error-handled"] else [])
+    ++ (if apps.any (fun a => a.fails && !specDelivered lvl a.chain) then ["failing-but-rejected"] else [])
+    ++ (if (attached.filter (specErrs table lvl)).length ≥ 2 then ["multi-error"] else [])
+    ++ (if !attached.Nodup then ["attached-twice"] else [])
+    ++ (if apps.any (fun a => a.chain.length > 5) then ["long-chain"] else [])
+  if attached.isEmpty || apps.all (fun a => a.chain.isEmpty && !a.fails) then "trivial" :: t else t
+
+def decEvent (s : String) : Option Event :=
+  match s.toList with
+  | 'f' :: rest =>
+    match splitOnChar '.' (String.ofList rest) with
+    | [a, i] => match a.toNat?, i.toNat? with
+      | some a, some i => some (.filter a i)
+      | _, _ => none
+    | _ => none
+  | 'a' :: rest => (String.ofList rest).toNat?.map Event.append
+  | 'h' :: rest => (String.ofList rest).toNat?.map Event.handler
+  | _ => none
+
+def isHandler : Event → Bool
+  | .handler _ => true
+  | _ => false
+
+def isAppend : Event → Bool
+  | .append _ => true
+  | _ => false
+
+/-- The statement, evaluated on the calls the real code made. Per appender `i`: the sequence of its
+own filter consultations and `append` calls is the one its own chain prescribes (once per
+attachment), and the handler got exactly as many of its errors as it returned. The statement does
+not fix how the calls of different appenders interleave, nor when the handler runs; that is left to
+the correspondence check. -/
+def specVerdict (table : List AppenderM) (nl : Nat) (att : List Nat) (rl : Nat) (impl : List Event) :
+    Option String :=
+  let want := specTrace table nl att rl
+  if impl.any (fun e => e.app ≥ table.length) then some "call-to-unknown-appender"
+  else if !admits nl rl && !impl.isEmpty then some "not-admitted-record-delivered"
+  else
+    let bad (f : Nat → Bool) := (List.range table.length).any f
+    let own (i : Nat) (tr : List Event) := (project i tr).filter (fun e => !isHandler e)
+    let cnt (p : Event → Bool) (i : Nat) (tr : List Event) := ((project i tr).filter p).length
+    if bad (fun i => cnt isAppend i impl != cnt isAppend i want) then some "deliveries-differ"
+    else if bad (fun i => own i impl != own i want) then some "filter-consultations-differ"
+    else if bad (fun i => cnt isHandler i impl != cnt isHandler i want) then some "handler-calls-differ"
+    else none
+
+def handle : Handler := fun cas obs =>
+  match cas, obs with
+  | [nl, rl, att, apps], [implObs] =>
+    match decNat nl, decNat rl, mapM? decNat (decList ',' att), mapM? decAppender (decList ',' apps) with
+    | some nl, some rl, some att, some table =>
+      if att.any (· ≥ table.length) then badCase "attachment out of range" else
+      let want := renderTrace (specTrace table nl att rl)
+      { model := renderOutcome (fanout table nl att rl),
+        spec :=
+          if implObs = "PANIC" then "FAIL:panic;sig=C03/panic" else
+          match mapM? decEvent (decList ',' implObs) with
+          | none => "FAIL:unreadable-observation;sig=C03/unreadable-observation"
+          | some impl =>
+            match specVerdict table nl att rl impl with
+            | none => "ok"
+            | some clause => "FAIL:" ++ clause ++ " expected " ++ want ++ ";sig=C03/" ++ clause,
+        tags := tagsOf table nl att rl }
+    | _, _, _, _ => badCase "fields"
+  | _, _ => badCase "arity"
 
 end Driver.C03
